@@ -37,6 +37,7 @@ func allInstances() []*Instance {
 	regC16(add, p)
 	regC19(add, p)
 	regC03(add, p)
+	regC18(add, p)
 	regC02(add, p)
 	regC11(add, p)
 	regC12(add, p)
@@ -465,6 +466,36 @@ func regC03(add addFn, p pFn) {
 		Reach: []string{"served", "refused", "served-under-session", "session-created"}, Bound: "two requests with a session manager (cookie present or not, store failing or not); header absent or a decodable token whose lists have 2 elements and OIDs are KRB5 (token shapes are the 1-request instances' subject)"})
 	add(&Instance{Property: "C03", Name: "handler-3req-sm1", Entry: "spnego.VH_C03_Handler", Params: p("requests", 3, "sm", 1, "shape", -2, "fixoid", 1, "seqlens", 4, "maxstr", 1), Stubs: stubs, Replay: "stubbed", Tier: "thorough", TimeoutS: 3000,
 		Reach: []string{"served", "refused", "served-under-session", "session-created"}, Bound: "three requests with a session manager"})
+}
+
+func regC18(add addFn, p pFn) {
+	stubs := []string{"httpclient", "ticketstub", "asn1pair", "encpair", "b64pair", "lineartime"}
+	methods := []string{"GET", "HEAD", "POST"}
+	alphabet := "{200, 401 Negotiate, 401 reject token, 401 other scheme, 302 same host, 302 other host, 500, transport error}"
+	for m, mn := range methods {
+		for _, l := range []int{0, 1, 2, 3} {
+			for _, spn := range []int{0, 1} {
+				tier := ""
+				if l == 3 || (l == 2 && spn == 1) {
+					tier = "thorough"
+				}
+				body := 0
+				if m == 2 {
+					body = 3
+				}
+				add(&Instance{Property: "C18", Name: "do-" + mn + "-len" + itoa(l) + "-spn" + itoa(spn), Entry: "spnego.VH_C18_Do", Params: p("len", l, "method", m, "body", body, "spn", spn, "early", 1, "etype", 18, "keylen", 32, "kinds", 8, "getbody", 0),
+					Stubs: stubs, Replay: "stubbed", Tier: tier, TimeoutS: 1500, Reach: []string{"returned"},
+					Bound: "every server script of length " + itoa(l) + " over " + alphabet + " + every constant tail; " + mn + "; body " + itoa(body) + " symbolic bytes; the server may answer after reading one body byte; SPN " + map[int]string{0: "derived from the URL", 1: "explicit"}[spn]})
+			}
+		}
+	}
+	// a body that can be re-created (GetBody) and 307 redirects, which make net/http resend the body itself
+	add(&Instance{Property: "C18", Name: "do-POST-getbody-307-len2", Entry: "spnego.VH_C18_Do", Params: p("len", 2, "method", 2, "body", 2, "spn", 0, "early", 0, "etype", 18, "keylen", 32, "kinds", 9, "getbody", 1),
+		Stubs: stubs, Replay: "stubbed", TimeoutS: 1500, Reach: []string{"returned", "body-read", "challenged"},
+		Bound: "scripts of length 2 + tail over the alphabet plus 307-same-host; POST with GetBody; body 2 symbolic bytes"})
+	add(&Instance{Property: "C18", Name: "do-POST-getbody-307-len3", Entry: "spnego.VH_C18_Do", Params: p("len", 3, "method", 2, "body", 2, "spn", 0, "early", 0, "etype", 18, "keylen", 32, "kinds", 9, "getbody", 1),
+		Stubs: stubs, Replay: "stubbed", Tier: "thorough", TimeoutS: 3000, Reach: []string{"returned", "body-read", "challenged"},
+		Bound: "scripts of length 3 + tail over the alphabet plus 307-same-host; POST with GetBody"})
 }
 
 func regC19(add addFn, p pFn) {
